@@ -601,10 +601,7 @@ static void run_omp_callers(const vf::Args &args, Report &rep, Engine &eng, int 
             g_record = false;
             std::vector<int> bad(T, 0);
             std::vector<uint64_t> badpos(T, 0), badgot(T, 0);
-#pragma omp parallel num_threads(T)
-            {
-                int me = omp_get_thread_num();
-                if (me < T)
+            auto member = [&](int me) {
                 {
                     const Cfg &c = cf[me];
                     uint64_t n = (uint64_t)1 << c.d, next = kind == K_EXT ? (uint64_t)1 << c.e : n;
@@ -619,13 +616,24 @@ static void run_omp_callers(const vf::Args &args, Report &rep, Engine &eng, int 
                     for (uint64_t k = 0; k < next * c.ncols; k++)
                         if (orc::canon(o[k]) != io[me]->out[k]) { bad[me] = 1; badpos[me] = k; badgot[me] = o[k]; break; }
                 }
+            };
+            // even rounds: the callers are the members of an OpenMP team; odd rounds: plain threads released together
+            bool plain = mine[i] & 1;
+            if (plain) vf::team(T, member);
+            else
+            {
+#pragma omp parallel num_threads(T)
+                {
+                    int me = omp_get_thread_num();
+                    if (me < T) member(me);
+                }
             }
             for (int t = 0; t < T; t++)
                 if (bad[t])
-                    r.violation(std::string(prop) + ":" + KN[kind] + ":callers-inside-an-OpenMP-team:wrong-value",
+                    r.violation(std::string(prop) + ":" + KN[kind] + (plain ? ":plain-thread-callers:wrong-value" : ":callers-inside-an-OpenMP-team:wrong-value"),
                                 J().raw("cfg", cf[t].json()).i("team_of_callers", T).i("caller", t).u("first_bad_position", badpos[t]).h("got", badgot[t]).h("expected", io[t]->out[badpos[t]]).done());
             r.evaluations += T;
-            r.cls("family:callers_inside_an_OpenMP_team", T);
+            r.cls(plain ? "family:plain_thread_callers" : "family:callers_inside_an_OpenMP_team", T);
             r.nontrivial(vf::mix64(mine[i], 0xCA11));
         });
 }
